@@ -557,7 +557,7 @@ theorem obj_nil_prints_nothing (c : RCtx) (line : Nat) (e : Expr) (s : RS)
     renderNode c (.obj line e) s = .ret (.done, s) := by
   unfold renderNode
   simp [wrapFailAt, M.mapFail, bind, M.bind, M.getEnv, M.ofRes, h, pure, M.pure, Prog.bind, GoVal.isNil, hs, ho,
-    writeAllM, Prog.mapFail]
+    writeAllM, writeVerbatimM, Prog.mapFail]
 
 /-- **C08 (strict variables: only the final value).** In strict-variables mode an object fails with the
     undefined-variable error exactly when its FINAL value is nil (`strict_undefined`, Proofs/C07.lean); when
